@@ -574,7 +574,19 @@ def static_naming(ctx):
              'that same full_name; lookups go params -> locals -> statics '
              '-> globals')
     fn = repo.func('qbee.evalctx', 'Variable.full_name')
-    ok = "f'_static_{self.routine.name}_{self.name}'" in unparse(fn.node)
+    # structural: some returned f-string starts with a constant beginning
+    # with '_' (not spellable by users) and interpolates both the routine's
+    # name and the variable's own name
+    ok = False
+    for js in ast.walk(fn.node):
+        if isinstance(js, ast.JoinedStr) and js.values and \
+                isinstance(js.values[0], ast.Constant) and \
+                str(js.values[0].value).startswith('_'):
+            parts = [dotted(v.value) or '' for v in js.values
+                     if isinstance(v, ast.FormattedValue)]
+            if any(p.endswith('routine.name') for p in parts) and \
+                    any(p == 'self.name' for p in parts):
+                ok = True
     ctx.instance(rule, f'{fn.file}:Variable.full_name')
     if not ok:
         ctx.finding(rule, f'{fn.file}:Variable.full_name',
@@ -582,8 +594,18 @@ def static_naming(ctx):
                     'routine name: statics of two routines collide',
                     fn.file, fn.line)
     ic = repo.func('qbee.qvm_codegen', 'QvmCodeGen.init_code')
-    ok = 'routine.get_variable(svar).full_name: stype' in unparse(ic.node) \
-        and 'routine.static_vars.items()' in unparse(ic.node)
+    # structural: a comprehension over <routine>.static_vars whose key is
+    # <routine>.get_variable(<name>).full_name
+    ok = False
+    for comp in ast.walk(ic.node):
+        if isinstance(comp, ast.DictComp) and any(
+                'static_vars' in unparse(g_.iter) for g_ in comp.generators):
+            k = comp.key
+            if isinstance(k, ast.Attribute) and k.attr == 'full_name' and \
+                    isinstance(k.value, ast.Call) and \
+                    isinstance(k.value.func, ast.Attribute) and \
+                    k.value.func.attr == 'get_variable':
+                ok = True
     ctx.instance(rule, f'{ic.file}:QvmCodeGen.init_code:statics')
     if not ok:
         ctx.finding(rule, f'{ic.file}:QvmCodeGen.init_code:statics',
@@ -602,7 +624,16 @@ def static_naming(ctx):
         ctx.finding(rule, f'{gv.file}:Routine.get_variable',
                     f'variable lookup order is {order}', gv.file, gv.line)
     ig = repo.func('qbee.evalctx', 'Variable.is_global')
-    ok = "self.scope in ('global', 'static')" in unparse(ig.node)
+    ok = False
+    for c_ in ast.walk(ig.node):
+        if isinstance(c_, ast.Compare) and len(c_.ops) == 1 and \
+                isinstance(c_.ops[0], ast.In) and \
+                dotted(c_.left) == 'self.scope' and \
+                isinstance(c_.comparators[0], (ast.Tuple, ast.List,
+                                               ast.Set)):
+            vals = {const(e) for e in c_.comparators[0].elts}
+            if vals == {'global', 'static'}:
+                ok = True
     ctx.instance(rule, f'{ig.file}:Variable.is_global')
     if not ok:
         ctx.finding(rule, f'{ig.file}:Variable.is_global',
